@@ -57,11 +57,13 @@ func (c19Prop) Phases(tier string) []PhaseCfg {
 
 func (c19Prop) Gen(t *Tape, ph *PhaseCfg) Case {
 	if ph != nil && ph.P["pair"] == 1 {
-		return genPair(t, func() Case {
+		g := genPair(t, func() Case {
 			c := c19Prop{}.genOne(t)
 			c.Decl.Probe.YieldInSet = true
 			return c
 		})
+		g.MapOrder = true
+		return g
 	}
 	return c19Prop{}.genOne(t)
 }
